@@ -181,6 +181,13 @@ class Body:
             return self._cache[key]
         self._cache[key] = ("tmp", l)  # cycle guard
         bi, si, node = ds[0]
+        if through_vars == "pure" and name is not None and si != "term":
+            rv = node["rv"]
+            if rv["k"] == "use" and rv["a"]["k"] in ("copy", "move") and "*" in rv["a"]["pl"]["p"]:
+                # a named variable holding a value loaded from memory: the place may have been written since
+                r = ("var", name, l)
+                self._cache[key] = r
+                return r
         if si == "term":
             cal = node.get("callee") or node.get("decl") or "<indirect>"
             args = tuple(self.sym_op(a, depth + 1, through_vars) for a in node["args"])
@@ -363,3 +370,58 @@ class CallGraph:
                     if c in self.F.fns and c not in seen:
                         stack.append(c)
         return seen
+
+
+# ---------------------------------------------------------------------------
+# path utilities
+# ---------------------------------------------------------------------------
+def call_blocks(B, pred):
+    """blocks (non-cleanup) whose terminator is a call satisfying pred(term)"""
+    return {bi for bi, b in enumerate(B.blocks) if not b.get("cleanup") and b["term"]["k"] == "call" and pred(b["term"])}
+
+
+def reachable_avoiding(B, start, barriers, through_start=True):
+    """blocks reachable from start without entering any barrier block (a barrier is not expanded;
+    the start block itself is expanded even if it is a barrier when through_start)"""
+    seen = set()
+    stack = [start]
+    first = True
+    while stack:
+        b = stack.pop()
+        if b in seen:
+            continue
+        if b in barriers and not (first and through_start):
+            first = False
+            continue
+        first = False
+        seen.add(b)
+        for s in B.succ(b):
+            if not B.blocks[s].get("cleanup"):
+                stack.append(s)
+    return seen
+
+
+def natural_loops(B):
+    """[(header, body set)] for every back edge (tail -> header with header dominating tail)"""
+    loops = {}
+    live = B.reachable(0)
+    preds = B.preds()
+    for t in live:
+        for h in B.succ(t):
+            if h in live and B.dominates(h, t):
+                body = {h, t}
+                stack = [t]
+                while stack:
+                    x = stack.pop()
+                    if x == h:
+                        continue
+                    for p in preds[x]:
+                        if p in live and p not in body:
+                            body.add(p)
+                            stack.append(p)
+                loops.setdefault(h, set()).update(body)
+    return sorted(loops.items())
+
+
+def return_blocks(B):
+    return {bi for bi, b in enumerate(B.blocks) if not b.get("cleanup") and b["term"]["k"] == "return"}
